@@ -483,7 +483,7 @@ def _op(rng):
 
 
 def generate(rng, tier):
-    n = 500 if tier == "quick" else 4000
+    n = 380 if tier == "quick" else 4000
     out = []
     for i in range(n):
         c = _spec(rng)
